@@ -32,17 +32,35 @@ Theorem C08_terminal : forall c n,
 Proof. exact terminal_or_fell. Qed.
 Print Assumptions C08_terminal.
 
-Theorem C08_good_reachable : forall md tops, good (run_list (init md) tops).
-Proof. intros md tops. apply run_list_good. apply good_init. Qed.
+(* build_schemas' loop: [run_tops] executes top-level invocations ([Plain]) and re-parses of depth placeholders
+   ([Fresh k t]: schema_states.pop(k) then _parse_schema(k, …)), any number of passes. *)
+Theorem C08_balanced_loop : forall l c, rest c -> rest (run_tops c l).
+Proof. exact balanced_tops. Qed.
+Print Assumptions C08_balanced_loop.
+
+Theorem C08_good_reachable : forall md tops,
+  forallb fresh_ok tops = true -> good (run_tops (init md) tops) /\ rest (run_tops (init md) tops).
+Proof. intros md tops H. apply good_tops; [exact H | apply good_init | split; reflexivity]. Qed.
 Print Assumptions C08_good_reachable.
 
-(* The tracker half of C08 under the executable guard "no fall-through was taken": *)
+(* The tracker half of C08 under the executable guard "no fall-through was taken" (and the structural condition
+   that state is only dropped for the schema parsed next, which is what build_schemas does): depth placeholders
+   included — PLACEHOLDER_DEPTH is terminal, and a re-parsed placeholder ends COMPLETED or as a placeholder. *)
 Theorem C08_partial : forall md tops,
-  guard_F08b md tops = true ->
-  let c := run_list (init md) tops in
+  guard_F08b md tops = true -> forallb fresh_ok tops = true ->
+  let c := run_tops (init md) tops in
   rest c /\ forall n, In n (g_entered c) -> n <> [] -> terminal (state_of c n) = true.
 Proof. exact partial. Qed.
 Print Assumptions C08_partial.
+
+Theorem C08_fresh_nonvacuous :
+  let c := run_tops (init 1) tops_fresh in
+  guard_F08b 1 tops_fresh = true /\ forallb fresh_ok tops_fresh = true
+  /\ length (exceeded c) = 3%nat
+  /\ forallb (fun n => terminal (state_of c n)) [[83;48]; [83;49]; [83;50]; [83;51]] = true
+  /\ map (state_of c) [[83;49]; [83;50]; [83;51]] = [Completed; Completed; Completed].
+Proof. exact fresh_nonvacuous. Qed.
+Print Assumptions C08_fresh_nonvacuous.
 
 (* Counted depth: in a tree of NAMED frames started within the limit, recursion_depth never exceeds
    max_depth + 1 (the extra one is the frame that is answered with the depth placeholder). *)
@@ -55,36 +73,36 @@ Print Assumptions C08_depth_named.
 (* True nesting: as long as no fall-through happens (F08b) and no name is empty (F08d), the counted depth IS the
    number of active _parse_schema frames, so the peaks coincide ... *)
 Theorem C08_nesting_is_depth : forall md tops,
-  guard_F08b md tops = true -> forallb names_truthy tops = true ->
-  let c := run_list (init md) tops in g_peak_nest c = g_peak c.
+  guard_F08b md tops = true -> forallb (fun x => names_truthy (top_call x)) tops = true ->
+  let c := run_tops (init md) tops in g_peak_nest c = g_peak c.
 Proof. exact nesting_is_depth. Qed.
 Print Assumptions C08_nesting_is_depth.
 
 (* ... and when moreover every frame is named (F08a excluded), recursion IS cut at the configured limit:
    never more than limit + 1 nested _parse_schema frames. *)
 Theorem C08_nesting_named_bounded : forall md tops,
-  guard_F08b md tops = true -> forallb all_named tops = true ->
-  g_peak_nest (run_list (init md) tops) <= md + 1.
+  guard_F08b md tops = true -> forallb (fun x => all_named (top_call x)) tops = true ->
+  g_peak_nest (run_tops (init md) tops) <= md + 1.
 Proof. exact nesting_named_bounded. Qed.
 Print Assumptions C08_nesting_named_bounded.
 
 (* F08a: anonymous frames are never depth-checked: for EVERY limit there is a tree nesting deeper than
    limit + 1 for which no depth placeholder is produced (nesting and counted depth grow without bound). *)
 Theorem C08_refuted_F08a : forall md, exists t,
-  guard_F08a md [t] = false /\ exceeded (run_list (init md) [t]) = [].
+  guard_F08a md [Plain t] = false /\ exceeded (run_tops (init md) [Plain t]) = [].
 Proof. exact refuted_F08a. Qed.
 Print Assumptions C08_refuted_F08a.
 
 Theorem C08_anon_unbounded : forall md k,
-  let c := run_list (init md) [anon_chain k] in
+  let c := run_tops (init md) [Plain (anon_chain k)] in
   g_peak_nest c = N.of_nat k + 1 /\ g_peak c = N.of_nat k + 1 /\ exceeded c = [] /\ states c = [] /\ rest c.
 Proof. exact anon_unbounded. Qed.
 Print Assumptions C08_anon_unbounded.
 
 (* F08b: the implementation's own call tree on corpus/C08/F08b.json: at rest, but C (entered) is NOT_STARTED *)
 Theorem C08_refuted_F08b :
-  let c := run_list (init default_max_depth) tops_F08b in
-  rest c /\ guard_F08b default_max_depth tops_F08b = false /\ forallb names_truthy tops_F08b = true
+  let c := run_tops (init default_max_depth) (plain tops_F08b) in
+  rest c /\ guard_F08b default_max_depth (plain tops_F08b) = false /\ forallb names_truthy tops_F08b = true
   /\ In [67] (g_entered c) /\ terminal (state_of c [67]) = false.
 Proof. exact refuted_F08b. Qed.
 Print Assumptions C08_refuted_F08b.
@@ -92,8 +110,8 @@ Print Assumptions C08_refuted_F08b.
 (* F08c is fixed: regression — the fixed implementation's call tree on `Alias: {$ref: Target}` registers both
    declared names *)
 Theorem C08_regress_F08c :
-  let c := run_list (init default_max_depth) tops_F08c in
-  rest c /\ guard_F08b default_max_depth tops_F08c = true
+  let c := run_tops (init default_max_depth) (plain tops_F08c) in
+  rest c /\ guard_F08b default_max_depth (plain tops_F08c) = true
   /\ forallb (fun n => terminal (state_of c n)) declared_F08c = true
   /\ all_present declared_F08c c = true.
 Proof. exact regress_F08c. Qed.
@@ -102,25 +120,25 @@ Print Assumptions C08_regress_F08c.
 (* F08d is fixed in the loader (empty component names are rejected before parsing; the witness now has an empty
    trace).  Why the name theorems keep the hypothesis n <> []: the tracker still leaves "" IN_PROGRESS. *)
 Theorem C08_regress_F08d :
-  rest (run_list (init default_max_depth) []) /\ g_entered (run_list (init default_max_depth) []) = [].
+  rest (run_tops (init default_max_depth) []) /\ g_entered (run_tops (init default_max_depth) []) = [].
 Proof. exact regress_F08d. Qed.
 Print Assumptions C08_regress_F08d.
 
 Theorem C08_tracker_empty_name :
-  let c := run_list (init default_max_depth) tops_empty_name in
+  let c := run_tops (init default_max_depth) (plain tops_empty_name) in
   rest c /\ forallb names_truthy tops_empty_name = false
   /\ In [] (g_entered c) /\ state_of c [] = InProgress.
 Proof. exact tracker_empty_name. Qed.
 Print Assumptions C08_tracker_empty_name.
 
 Theorem C08_guard_nonvacuous :
-  guard_F08b default_max_depth tops_ring = true /\ forallb names_truthy tops_ring = true
-  /\ length (cycles (run_list (init default_max_depth) tops_ring)) = 2%nat
-  /\ length (g_entered (run_list (init default_max_depth) tops_ring)) = 7%nat.
+  guard_F08b default_max_depth (plain tops_ring) = true /\ forallb names_truthy tops_ring = true
+  /\ length (cycles (run_tops (init default_max_depth) (plain tops_ring))) = 2%nat
+  /\ length (g_entered (run_tops (init default_max_depth) (plain tops_ring))) = 7%nat.
 Proof. exact guard_nonvacuous. Qed.
 Print Assumptions C08_guard_nonvacuous.
 
 (* the logged execution used by the correspondence check computes the same final context as [run] *)
-Theorem C08_trace_is_run : forall md tops, fst (run_list_acc (init md) [] tops) = run_list (init md) tops.
-Proof. exact trace_final. Qed.
+Theorem C08_trace_is_run : forall md tops, fst (run_tops_acc (init md) [] tops) = run_tops (init md) tops.
+Proof. intros md tops. apply trace_final. Qed.
 Print Assumptions C08_trace_is_run.
